@@ -1031,6 +1031,17 @@ func (fr *Frame) appendBuiltin(cc *ssa.CallCommon, args []Val, st *State, g *Ter
 		kk := intLit(int64(k))
 		c.assumeG(g, mk(SBool, fmt.Sprintf("(=> (< %d %s) (= (select %s (+ %s %d)) %s))", k, addLen.S, newArr.S, oldLen.S, k, srcElem(kk).S)))
 	}
+	if b, ok := st0.Elem().Underlying().(*types.Basic); ok && b.Kind() == types.Uint8 {
+		// byte slices: the abstract content of the result is the concatenation of the contents of the two operands
+		c.declareFun("gstr.cat", []Sort{SStr, SStr}, SStr)
+		var srcStr *Term
+		if _, ok := cc.Args[1].Type().Underlying().(*types.Slice); ok {
+			srcStr = c.bytesContent(st, args[1].T)
+		} else {
+			srcStr = args[1].T
+		}
+		c.assumeG(g, tEq(c.bytesContentOf(newArr, intLit(0), tAdd(oldLen, addLen)), app(SStr, "gstr.cat", c.bytesContent(st, s), srcStr)))
+	}
 	c.heapSet(st, en, c.sto(c.heapGet(st, en), r, newArr))
 	return tv(c.define("append.res", mk(SSlice, fmt.Sprintf("(mk-slice %s 0 (+ %s %s))", r.S, oldLen.S, addLen.S))))
 }
